@@ -31,6 +31,22 @@ def rowLe : List Int → List Int → Bool
 def showRows (rs : List (List Int)) : String := joinSp (rs.map (fun r => ",".intercalate (r.map toString)))
 def showNats (ns : List Nat) : String := ",".intercalate (ns.map toString)
 
+/-- one scripted interaction with the bandit agent / environment; ops: `P u choice`, `L action reward`, `R cur new` -/
+partial def banditOps (a : Bandit.Agent Float) (acc : List String) : List String → Option (List String)
+  | [] => some acc.reverse
+  | "P" :: u :: c :: rest => do
+      let u ← parseFloat? u; let c ← c.toNat?
+      banditOps a (toString (Bandit.policy a u c) :: acc) rest
+  | "L" :: act :: r :: rest => do
+      let act ← act.toNat?; let r ← parseFloat? r
+      let a' := Bandit.learn Float.ofNat a act r
+      banditOps a' ((fl a'.q ++ " / " ++ joinSp (a'.counts.map toString)) :: acc) rest
+  | "R" :: cur :: new :: rest => do
+      let cur ← parseFloat? cur; let new ← parseFloat? new
+      let (r, ref) := Bandit.getReward (0.0 : Float) cur new
+      banditOps a ((floatToHex r ++ " " ++ floatToHex ref) :: acc) rest
+  | _ => none
+
 def handle (op : String) (args : List String) : Option String :=
   match op with
   | "snap.closest" => do
@@ -61,6 +77,13 @@ def handle (op : String) (args : List String) : Option String :=
       let o := Dedup.sample rowLe (Dedup.drawScript script) passes ex b
       pure (s!"samples {showRows o.samples} | requests {showNats o.requests} | runs " ++
         ";".intercalate (o.runs.map showNats) ++ s!" | warned {if o.warned then 1 else 0}")
+  | "bandit.run" => do
+      match args with
+      | n :: alpha :: eps :: q0 :: ops => do
+          let n ← n.toNat?; let alpha ← parseFloat? alpha; let eps ← parseFloat? eps; let q0 ← parseFloat? q0
+          let outs ← banditOps (Bandit.Agent.init n alpha eps q0) [] ops
+          pure (" ; ".intercalate outs)
+      | _ => none
   | "ss.check" => do
       let (b, p) ← run (do let b ← list (list flt); let p ← list flt; pure (b, p)) args
       match SearchSpace.checkBounds (0.0 : Float) b p with
